@@ -1,6 +1,9 @@
 (** C19 — correspondence cases: one tensor (constructor, shape, data) and a history of
     operations with what the implementation returned for each; compared with the model
-    ([model_check]) and with plain row-major arithmetic ([spec_check], independent of the model). *)
+    ([model_check]) and with plain row-major arithmetic ([spec_check], independent of the model).
+    The model side runs the constructors and [read] with the checked element count of the code
+    ([from_vec_chk] ... at [usize_max]); the specification side says: a shape is constructible iff its extents
+    are positive and Π dims <= usize::MAX. *)
 From Coq Require Import List NArith ZArith Bool.
 From RlibV Require Import Common.Batch C19.Model C19.Spec.
 Import ListNotations.
@@ -19,7 +22,11 @@ Inductive op :=
 | ORoundtrip (r : option (bool * list Z))            (* write, Tensor::read(same dims): (read == t, read.iter()) *)
 | ORead (rdims : list N) (toks : list (tok Z)) (r : option (list N * list Z))   (* Tensor::read(rdims, text): dims, iter *)
 | OEq (edims : list N) (edata : list Z) (r : option bool)   (* t == from_vec(edims, edata); None: that constructor panicked *)
-| ODebug (r : option (list (dtok Z))).                      (* format!("{:?}", t), lexed *)
+| ODebug (r : option (list (dtok Z)))                       (* format!("{:?}", t), lexed *)
+| OIterMut (vs : list Z) (cnt : N).                         (* for (x, v) in t.iter_mut().zip(vs) { *x = v }; cnt = t.iter_mut().count() *)
+
+(** usize::MAX of the 64-bit targets the executor is built for *)
+Definition usize_max : N := 18446744073709551615.
 
 (** [c_ok]: the constructor returned (false: it panicked; then no operation is run) *)
 Record case := Case { c_dims : list N; c_ctor : ctor; c_data : list Z; c_ok : bool; c_ops : list op }.
@@ -37,14 +44,14 @@ Definition dtokeqb (a b : dtok Z) : bool :=
 (* ------------------------------------------------------------------ model side *)
 Definition construct (c : case) : option (tensor Z) :=
   match c_ctor c with
-  | FromVec => from_vec (c_dims c) (c_data c)
-  | FromSlice => from_slice (c_dims c) (c_data c)
-  | New v => new (c_dims c) v
+  | FromVec => from_vec_chk usize_max (c_dims c) (c_data c)
+  | FromSlice => from_slice_chk usize_max (c_dims c) (c_data c)
+  | New v => new_chk usize_max (c_dims c) v
   end.
 
 Definition m_roundtrip (t : tensor Z) : option (bool * list Z) :=
   match write t with
-  | Some out => match read (dims t) out with
+  | Some out => match read_chk usize_max (dims t) out with
                 | Some u => Some (eq Z.eqb u t, iter u)
                 | None => None
                 end
@@ -61,10 +68,11 @@ Definition m_op (t : tensor Z) (o : op) : bool :=
   | OWrite r => oeqb (leqb tokeqb) (write t) r
   | ORoundtrip r => oeqb (peqb Bool.eqb lZeqb) (m_roundtrip t) r
   | ORead rdims toks r =>
-      oeqb (peqb lNeqb lZeqb) (match read rdims toks with Some u => Some (dims u, iter u) | None => None end) r
+      oeqb (peqb lNeqb lZeqb) (match read_chk usize_max rdims toks with Some u => Some (dims u, iter u) | None => None end) r
   | OEq edims edata r =>
-      oeqb Bool.eqb (match from_vec edims edata with Some u => Some (eq Z.eqb t u && eq Z.eqb u t) | None => None end) r
+      oeqb Bool.eqb (match from_vec_chk usize_max edims edata with Some u => Some (eq Z.eqb t u && eq Z.eqb u t) | None => None end) r
   | ODebug r => oeqb (leqb dtokeqb) (debug t) r
+  | OIterMut _ cnt => lenN (data t) =? cnt
   end.
 
 Fixpoint m_ops (t : tensor Z) (ops : list op) : bool :=
@@ -75,6 +83,7 @@ Fixpoint m_ops (t : tensor Z) (ops : list op) : bool :=
       | Some t' => ok && m_ops t' r
       | None => negb ok && m_ops t r
       end
+  | OIterMut vs cnt :: r => m_op t (OIterMut vs cnt) && m_ops (iter_mut_assign t vs) r
   | o :: r => m_op t o && m_ops t r
   end.
 
@@ -89,7 +98,11 @@ Definition model_check (c : case) : bool :=
 Definition s_lookup (l : list Z) (k : N) : option Z := nth_error l (N.to_nat k).
 Definition s_update (l : list Z) (k : N) (v : Z) : list Z :=
   firstn (N.to_nat k) l ++ v :: skipn (S (N.to_nat k)) l.
-Definition s_constructible (ds : list N) (n : nat) : bool := positiveb ds && (product ds =? N.of_nat n).
+(** a shape can be constructed when its extents are positive and its element count fits into usize *)
+Definition s_shape (ds : list N) : bool := positiveb ds && (product ds <=? usize_max).
+Definition s_constructible (ds : list N) (n : nat) : bool := s_shape ds && (product ds =? N.of_nat n).
+(** the first [length l] values replace the front of [l] *)
+Definition s_assign (l vs : list Z) : list Z := firstn (length l) vs ++ skipn (length vs) l.
 
 Definition s_op (ds : list N) (l : list Z) (o : op) : bool :=
   match o with
@@ -105,15 +118,15 @@ Definition s_op (ds : list N) (l : list Z) (o : op) : bool :=
   | OWrite r => oeqb (leqb tokeqb) (Some (render ds l)) r
   | ORoundtrip r => oeqb (peqb Bool.eqb lZeqb) (Some (true, l)) r
   | ORead rdims toks r =>
-      let n := N.to_nat (product rdims) in
-      if positiveb rdims && (n <=? length (elems toks))%nat
-      then oeqb (peqb lNeqb lZeqb) (Some (rdims, firstn n (elems toks))) r
+      if s_shape rdims && (product rdims <=? N.of_nat (length (elems toks)))
+      then oeqb (peqb lNeqb lZeqb) (Some (rdims, firstn (N.to_nat (product rdims)) (elems toks))) r
       else oeqb (peqb lNeqb lZeqb) None r
   | OEq edims edata r =>
       if s_constructible edims (length edata)
       then oeqb Bool.eqb (Some (lNeqb ds edims && lZeqb l edata)) r
       else oeqb Bool.eqb None r
   | ODebug r => oeqb (leqb dtokeqb) (Some (debug_spec ds l)) r
+  | OIterMut _ cnt => N.of_nat (length l) =? cnt
   end.
 
 Fixpoint s_ops (ds : list N) (l : list Z) (ops : list op) : bool :=
@@ -122,12 +135,13 @@ Fixpoint s_ops (ds : list N) (l : list Z) (ops : list op) : bool :=
   | OSet idx v ok :: r =>
       if validb ds idx then ok && s_ops ds (s_update l (offset ds idx) v) r
       else negb ok && s_ops ds l r
+  | OIterMut vs cnt :: r => s_op ds l (OIterMut vs cnt) && s_ops ds (s_assign l vs) r
   | o :: r => s_op ds l o && s_ops ds l r
   end.
 
 Definition s_initial (c : case) : option (list Z) :=
   match c_ctor c with
-  | New v => if positiveb (c_dims c) then Some (repeat v (N.to_nat (product (c_dims c)))) else None
+  | New v => if s_shape (c_dims c) then Some (repeat v (N.to_nat (product (c_dims c)))) else None
   | _ => if s_constructible (c_dims c) (length (c_data c)) then Some (c_data c) else None
   end.
 
